@@ -11,6 +11,10 @@ import (
 	"strings"
 
 	"verifharness/vlib"
+	"verifharness/vlib/render"
+
+	bo "github.com/benoitkugler/webrender/html/boxes"
+	pr "github.com/benoitkugler/webrender/css/properties"
 
 	mt "github.com/benoitkugler/webrender/matrix"
 	"github.com/benoitkugler/webrender/svg"
@@ -79,6 +83,207 @@ func fmtNum(r *vlib.Rng, x float64) string {
 
 var angles = []float64{0, 30, 45, 90, -60, 12.5, 180, 360, -90, 1, 75, 135, 0.5}
 
+// ---- end to end: CSS `transform` on an HTML box -> Transform call on the backend
+
+var fonts = render.NewPango()
+
+func cssDim(r *vlib.Rng, allowPct bool) (text string, coq string) {
+	if allowPct && r.Chance(1, 3) {
+		v := vlib.Pick(r, []float64{0, 10, 25, 50, 100, -50, 33, 12.5})
+		s := strconv.FormatFloat(v, 'f', -1, 64)
+		f, _ := strconv.ParseFloat(s, 32)
+		return s + "%", "(Pct " + vlib.Q32(fl(f)) + ")"
+	}
+	v := float64(r.Range(-400, 400)) / 8
+	s := strconv.FormatFloat(v, 'f', -1, 64)
+	f, _ := strconv.ParseFloat(s, 32)
+	return s + "px", "(Px " + vlib.Q32(fl(f)) + ")"
+}
+
+func cssCase(r *vlib.Rng) (vlib.Case, bool) {
+	units := []string{"deg", "grad", "rad", "turn"}
+	coqUnits := []string{"Deg", "Grad", "Rad", "Turn"}
+	factor := []fl{math.Pi / 180, math.Pi / 200, 1, 2 * math.Pi}
+	trig := map[string]string{}
+	tags := map[string]bool{}
+	angle := func() (string, string) {
+		ui := r.Intn(4)
+		var v float64
+		switch ui {
+		case 0:
+			v = vlib.Pick(r, []float64{0, 30, 45, 90, -60, 12.5, 180, 360, 1, 75})
+		case 1:
+			v = vlib.Pick(r, []float64{0, 50, 100, -25, 33, 400})
+		case 2:
+			v = vlib.Pick(r, []float64{0, 1, -0.5, 0.25, 3, 1.5707964})
+		default:
+			v = vlib.Pick(r, []float64{0, 0.25, 0.5, -0.125, 1, 0.1})
+		}
+		s := strconv.FormatFloat(v, 'f', -1, 64)
+		f, _ := strconv.ParseFloat(s, 32)
+		rad := fl(f) * factor[ui]
+		c, sn, tn := trigOf(rad)
+		q := vlib.Q32(fl(f))
+		if vlib.Finite32(tn) {
+			trig[q+coqUnits[ui]] = fmt.Sprintf("CTE %s %s %s %s %s", q, coqUnits[ui], vlib.Q32(c), vlib.Q32(sn), vlib.Q32(tn))
+		}
+		u := units[ui] // (unit case-insensitivity belongs to C08's stream)
+		if v == 0 {
+			tags["zero-angle"] = true
+		}
+		return s + u, q + " " + coqUnits[ui]
+	}
+	num := func() (string, string) {
+		v := float64(r.Range(-12, 12)) / 4
+		s := strconv.FormatFloat(v, 'f', -1, 64)
+		f, _ := strconv.ParseFloat(s, 32)
+		return s, vlib.Q32(fl(f))
+	}
+	m := r.Range(1, 4)
+	var parts, srcs []string
+	for i := 0; i < m; i++ {
+		var name, src string
+		var args []string
+		switch r.Intn(13) {
+		case 0:
+			a, q := angle()
+			name, args, src = "rotate", []string{a}, "CRotate "+q
+		case 1:
+			a, q := angle()
+			name, args, src = "skewX", []string{a}, "CSkewX "+q
+			tags["skewX"] = true
+		case 2:
+			a, q := angle()
+			name, args, src = "skewY", []string{a}, "CSkewY "+q
+			tags["skewY"] = true
+		case 3:
+			a, q := angle()
+			name, args, src = "skew", []string{a}, "CSkew1 "+q
+		case 4:
+			x, q := cssDim(r, true)
+			name, args, src = "translate", []string{x}, "CTranslate1 "+q
+		case 5:
+			x, q := cssDim(r, true)
+			y, qy := cssDim(r, true)
+			name, args, src = "translate", []string{x, y}, "CTranslate2 "+q+" "+qy
+		case 6:
+			x, q := cssDim(r, true)
+			name, args, src = "translateX", []string{x}, "CTranslateX "+q
+		case 7:
+			x, q := cssDim(r, true)
+			name, args, src = "translateY", []string{x}, "CTranslateY "+q
+		case 8:
+			x, q := num()
+			name, args, src = "scale", []string{x}, "CScale1 "+q
+		case 9:
+			x, q := num()
+			y, qy := num()
+			name, args, src = "scale", []string{x, y}, "CScale2 "+q+" "+qy
+		case 10:
+			x, q := num()
+			name, args, src = "scaleX", []string{x}, "CScaleX "+q
+		case 11:
+			x, q := num()
+			name, args, src = "scaleY", []string{x}, "CScaleY "+q
+		default:
+			var qs []string
+			for j := 0; j < 6; j++ {
+				x, q := num()
+				args = append(args, x)
+				qs = append(qs, q)
+			}
+			name, src = "matrix", "CMatrix "+strings.Join(qs, " ")
+		}
+		if r.Chance(1, 5) {
+			name = strings.ToUpper(name)
+		}
+		parts = append(parts, name+"("+strings.Join(args, vlib.Pick(r, []string{", ", ",", " , "}))+")")
+		srcs = append(srcs, src)
+	}
+	origin := ""
+	if r.Chance(2, 3) {
+		ox, _ := cssDim(r, true)
+		oy, _ := cssDim(r, true)
+		if r.Chance(1, 4) {
+			ox = vlib.Pick(r, []string{"left", "center", "right"})
+		}
+		if r.Chance(1, 4) {
+			oy = vlib.Pick(r, []string{"top", "center", "bottom"})
+		}
+		origin = "transform-origin: " + ox + " " + oy + ";"
+	}
+	style := fmt.Sprintf("position:absolute; left:%dpx; top:%dpx; width:%dpx; height:%dpx; padding:%dpx; border:%dpx solid red; transform: %s; %s",
+		r.Range(0, 300), r.Range(0, 300), r.Range(1, 300), r.Range(1, 200), r.Range(0, 9), r.Range(0, 5), strings.Join(parts, " "), origin)
+	html := `<html><body style="margin:0"><div id=t style="` + style + `"></div></body></html>`
+	var g string
+	found := false
+	var pages []*bo.PageBox
+	o := render.Guard(func() {
+		var err error
+		pages, err = render.Layout(html, nil, false, true, fonts)
+		if err != nil {
+			panic(err)
+		}
+	})
+	if o.Status != "ok" || len(pages) != 1 {
+		return vlib.Case{}, false
+	}
+	render.Walk(pages[0], func(b bo.Box, d int) {
+		bx := b.Box()
+		if bx.Element != nil && bx.ElementTag() == "div" && !found {
+			found = true
+			or := bx.Style.GetTransformOrigin()
+			dim := func(d pr.Dimension) string {
+				if d.Unit == pr.Perc {
+					return "(Pct " + vlib.Q32(fl(d.Value)) + ")"
+				}
+				return "(Px " + vlib.Q32(fl(d.Value)) + ")"
+			}
+			g = fmt.Sprintf("{| bbx := %s; bby := %s; bw := %s; bh := %s; orx := %s; ory := %s |}",
+				vlib.Q32(fl(bx.BorderBoxX())), vlib.Q32(fl(bx.BorderBoxY())), vlib.Q32(fl(bx.BorderWidth())), vlib.Q32(fl(bx.BorderHeight())),
+				dim(or[0]), dim(or[1]))
+		}
+	})
+	if !found {
+		return vlib.Case{}, false
+	}
+	var rec *render.Recorder
+	o = render.Guard(func() {
+		d, err := render.Render(html, nil, false, true, fonts)
+		if err != nil {
+			panic(err)
+		}
+		rec = render.Draw(d, 1)
+	})
+	if o.Status != "ok" {
+		return vlib.Case{}, false
+	}
+	var trs [][]fl
+	for _, e := range rec.Events {
+		if e.Op == "Transform" {
+			trs = append(trs, e.Args)
+		}
+	}
+	has := len(trs) >= 3
+	outT := mt.Transform{}
+	if has {
+		a := trs[2]
+		outT = mt.New(a[0], a[1], a[2], a[3], a[4], a[5])
+		if !finiteT(outT) {
+			return vlib.Case{}, false
+		}
+	}
+	var tbl, tl []string
+	for _, v := range trig {
+		tbl = append(tbl, v)
+	}
+	for k := range tags {
+		tl = append(tl, k)
+	}
+	return vlib.Case{Kind: "css", Coq: fmt.Sprintf("CCssSrc %s %s %s %s %s", vlib.List(tbl), g, vlib.List(srcs), vlib.Bool(has), coqT(outT)),
+		Desc: map[string]interface{}{"html": html, "transform_calls": trs}, Nontrivial: true, Tags: tl}, true
+}
+
 func main() {
 	out := flag.String("out", "cases.jsonl", "output file")
 	n := flag.Int("n", 3000, "number of cases")
@@ -89,7 +294,7 @@ func main() {
 
 	for w.N() < *n {
 		r := rng.Fork()
-		switch k := r.Intn(20); {
+		switch k := r.Intn(26); {
 		case k == 0: // rounding model validation
 			var x float64
 			switch r.Intn(5) {
@@ -357,6 +562,10 @@ func main() {
 			}
 			w.Add(vlib.Case{Kind: "svg", Coq: fmt.Sprintf("CSvg %s %s %s", vlib.List(tbl), vlib.List(srcs), coqT(res)),
 				Desc: map[string]interface{}{"attr": attr, "out": res}, Nontrivial: true, Tags: tl})
+		case k >= 20:
+			if c, ok := cssCase(r); ok {
+				w.Add(c)
+			}
 		default: // viewBox / preserveAspectRatio
 			pos := []string{"Min", "Mid", "Max"}
 			xi, yi := r.Intn(3), r.Intn(3)
